@@ -176,7 +176,7 @@ def run_exact(op, pid, case):
         I.oblige('cover', True, 'cover')
         out = op.invoke(I, st, case)
         op.emit(I, out, st, case)
-        I.obls = [ob for ob in I.obls if ob.kind in ('aux', 'cover') or op.serves(ob.name, pid)]
+        I.obls = op.keep(I, pid)
         I.__dict__['_st'] = st
         return out
     settled = {}      # obligation name -> 'refuted' | number of unknowns: no need to re-ask on every further path
